@@ -531,6 +531,19 @@ def zeroize_dirty(f):
     return (o.get('dirty_blocks', 0) > 0), o
 
 
+def reference_prover_rejected(f):
+    """C19: a proof produced by the independent straight-from-the-paper prover is refused by the library, or its mask is not recovered"""
+    bad = []
+    for seed in (1, 2):
+        o = run_replay(f.cfg, seed)
+        if 'crash' in o:
+            return None, o
+        rp = (o.get('reference_prover') or [{}])[0]
+        if not (rp.get('reference_prove') == 'ok' and rp.get('library_verify') == 'ok' and rp.get('masks') == [rp.get('expected_mask')]):
+            bad.append(rp)
+    return (len(bad) == 2), bad[:1]
+
+
 def relation_disagrees(f):
     """C02: the library's verdict differs from the independent unoptimised evaluation of the relation
     (replay crate, refimpl.rs) on an honest proof or on a perturbed proof of the same configuration"""
